@@ -5,6 +5,28 @@ import GA.Proofs.UnpackIter
 -/
 namespace GA
 
+/-- does the object found at the entry's path have to go first?  (anything but a directory under a directory entry) -/
+def needRmL (l : Res) (e : Entry) : Bool :=
+  match l with
+  | .stat s => !(s.kind == .dir) || e.typ != .dir
+  | _ => false
+
+/-- the end of an iteration for an ordinary entry: resolve a staged hard-link source, translate the owner, create -/
+def layerTailP (dest : Str) (o : Opts) (e : Entry) (st : LState) (p : Str) : Prog (Except (Out × LState) LState) := do
+  let srcR ← resolveSrcP st e
+  match srcR with
+  | .error out => return .error (out, st)
+  | .ok src =>
+    match remapE o src with
+    | none => return .error (.err, st)
+    | some src' =>
+      let out ← createTarFileP p dest src' o
+      if out != .ok then return .error (out, st)
+      else
+        let st' : LState := { st with dirs := (if e.typ == .dir then { e with name := clean e.name } :: st.dirs else st.dirs),
+                                      unpacked := p :: st.unpacked }
+        return .ok st'
+
 def layerIterP (dest : Str) (o : Opts) (e : Entry) (st0 : LState) : Prog (Except (Out × LState) LState) := do
     let st := { st0 with size := st0.size + e.size }
     if e.typ == .xglobal then return .ok st
@@ -47,27 +69,11 @@ def layerIterP (dest : Str) (o : Opts) (e : Entry) (st0 : LState) : Prog (Except
             | some r => if isErr r then return .error (.err, st) else return .ok st
       else do
         let l ← sys (.lstat p)
-        let needRm : Bool := match l with
-          | .stat s => !(s.kind == .dir) || e.typ != .dir
-          | _ => false
-        if needRm && p = clean dest && e.typ != .dir then return .error (.err, st)
+        if needRmL l e && p = clean dest && e.typ != .dir then return .error (.err, st)
         else
-        let rm ← (if needRm then sys (.removeAll p) else pure .ok)
+        let rm ← (if needRmL l e then sys (.removeAll p) else pure .ok)
         if isErr rm then return .error (.err, st)
-        else
-          let srcR ← resolveSrcP st e
-          match srcR with
-          | .error out => return .error (out, st)
-          | .ok src =>
-            match remapE o src with
-            | none => return .error (.err, st)
-            | some src' =>
-              let out ← createTarFileP p dest src' o
-              if out != .ok then return .error (out, st)
-              else
-                let st' : LState := { st with dirs := (if e.typ == .dir then { e with name := n } :: st.dirs else st.dirs),
-                                              unpacked := p :: st.unpacked }
-                return .ok st'
+        else layerTailP dest o e st p
 
 def layerK (dest : Str) (o : Opts) (es : List Entry) : Except (Out × LState) LState → Prog (Out × Nat)
   | .error (out, st) => layerFinish dest st out
@@ -76,7 +82,7 @@ def layerK (dest : Str) (o : Opts) (es : List Entry) : Except (Out × LState) LS
 theorem layerLoop_cons (dest : Str) (o : Opts) (e : Entry) (es : List Entry) (st0 : LState) :
     layerLoop dest o (e :: es) st0 = (layerIterP dest o e st0).bind (layerK dest o es) := by
   rw [layerLoop]
-  unfold layerIterP
+  unfold layerIterP layerTailP needRmL
   simp only [Prog.bind_eq]
   simp only [Prog.pure_eq]
   by_cases hx : (e.typ == Typ.xglobal) = true
